@@ -14,10 +14,10 @@ func init() {
 	Register(&Prop{
 		Meta: core.Meta{
 			ID: "C28", Title: "BMP receiver tables mirror the monitored sessions", Level: "other",
-			Technique:  "must-pass-through and pairing rules on go/cfg and the call graph for the three ways a monitored session ends; iteration-safety rule (no range over a slice the body shrinks); encoder/decoder agreement of the ADD-PATH direction through the session constructor's field mapping",
-			DesignRef:  "DESIGN.md §4 C28",
-			Decided:    "(1) peer down, termination and loss of the BMP connection each reach, on every path, the disposal of both address families' Adj-RIB-In of the affected neighbor(s) — which flushes the routes into the VRF's Loc-RIB clients and unregisters it; (2) the disposal of all neighbors visits every neighbor: no loop ranges over the neighbor list while its body removes elements from it; (3) the ADD-PATH direction read from the monitored router's sent OPEN is the inverse of what bio-rd's own OPEN construction writes for the same configuration fields (send ↔ send, receive ↔ receive), so route-monitoring UPDATEs are decoded with the path-identifier setting the monitored session negotiated; (4) the pseudo session's Adj-RIB-In is registered with the VRF's Loc-RIB when the peer comes up.",
-			NotDecided: "that the tables contain *exactly* the announced-and-not-withdrawn routes for every message sequence (that is the behaviour of the RIB pipeline, C05–C09, under the BMP driver); observers being informed is the client-notification pairing of C06.",
+			Technique:   "must-pass-through and pairing rules on go/cfg and the call graph for the three ways a monitored session ends; iteration-safety rule (no range over a slice the body shrinks); encoder/decoder agreement of the ADD-PATH direction through the session constructor's field mapping",
+			DesignRef:   "DESIGN.md §4 C28",
+			Decided:     "(1) peer down, termination and loss of the BMP connection each reach, on every path, the disposal of both address families' Adj-RIB-In of the affected neighbor(s) — which flushes the routes into the VRF's Loc-RIB clients and unregisters it; (2) the disposal of all neighbors visits every neighbor: no loop ranges over the neighbor list while its body removes elements from it; (3) the ADD-PATH direction read from the monitored router's sent OPEN is the inverse of what bio-rd's own OPEN construction writes for the same configuration fields (send ↔ send, receive ↔ receive), so route-monitoring UPDATEs are decoded with the path-identifier setting the monitored session negotiated; (4) the pseudo session's Adj-RIB-In is registered with the VRF's Loc-RIB when the peer comes up.",
+			NotDecided:  "that the tables contain *exactly* the announced-and-not-withdrawn routes for every message sequence (that is the behaviour of the RIB pipeline, C05–C09, under the BMP driver); observers being informed is the client-notification pairing of C06.",
 			TrustedBase: stdTrusted,
 		},
 		Run: runC28,
